@@ -20,7 +20,7 @@ RULE = (
 ASSUMPTIONS = ["coefficients concrete, constants symbolic", "linprog = exact LP, sympy.solve = exact row reduction; float round-off only through replay"]
 BOUNDS = {"quick": {"variables": "<=5", "terms": "<=2 a, <=3 g per contract", "alphabet": [-2, -1, 1, 2]}, "thorough": {"variables": "<=6", "terms": "<=2 a, <=4 g per contract", "alphabet": [-3, -2, -1, 1, 2, 3, 0.5]}}
 OPTS = {"quick": {"tier_budget_s": 220, "max_paths": 2000, "job_budget_s": 60}, "thorough": {"tier_budget_s": 2000, "max_paths": 20000, "job_budget_s": 300}}
-REACH = {"quick": ["OK", "op:compose", "op:merge", "no-connection", "connected", "overlap:identical", "overlap:scaled"]}
+REACH = {"quick": ["OK", "op:compose", "op:merge", "no-connection", "connected", "overlap:identical", "overlap:scaled", "kept-connection"]}
 
 # (c1 ins, c1 outs, c2 ins, c2 outs, variables on which both guarantees may overlap)
 CW = {
@@ -65,7 +65,10 @@ def jobs(tier, seed):
                 c1["g"].append(dict(t))
                 c2["g"].append(dict(t))
                 c2["g"].append({k: -v for k, v in t.items()})
-        out.append({"kind": f"compose:{w}:{overlap}", "op": "compose", "wiring": w, "overlap": overlap, "c1": c1, "c2": c2, "order": rng.choice(["12", "21"]), "simplify": rng.random() < 0.7})
+        # keeping a connection variable makes it an output of the result: guarantees that mention it become interface-level
+        conn = [v for v in o1 if v in i2] + [v for v in o2 if v in i1]
+        keep = [v for v in conn if rng.random() < 0.5]
+        out.append({"kind": f"compose:{w}:{overlap}", "op": "compose", "wiring": w, "overlap": overlap, "c1": c1, "c2": c2, "order": rng.choice(["12", "21"]), "simplify": rng.random() < 0.7, "keep": keep})
     # merging with overlapping guarantees (reuses C08's builder, incl. shared constants)
     for j in C08.jobs(tier, seed + 1)[: (60 if tier == "quick" else 800)]:
         out.append(dict(j, kind="merge:" + j["kind"], op="merge", overlap="dup" if "dup" in j["kind"] else "none"))
@@ -85,7 +88,9 @@ def run(ctx, job):
             r = c1.merge(c2)
         else:
             first, second = (c1, c2) if job["order"] == "12" else (c2, c1)
-            r = first.compose(second, None, job["simplify"])
+            r = first.compose(second, list(job.get("keep", [])), job["simplify"])
+            if job.get("keep"):
+                ctx.tag("kept-connection")
     except ValueError as e:
         return {"cls": B.classify(e)}
     except Exception as e:
